@@ -13,7 +13,12 @@ Tie to the source:
       interpreter), incl. the failure class;
   (3) an independent oracle judges the property itself: generation raises iff a function does
       not translate, the text runs, returns one number per variable in declaration order, equal
-      (exactly, dyadic rationals) to what Model.__call__ returns with the free parameters updated.
+      (exactly, dyadic rationals) to what Model.__call__ returns with the free parameters updated;
+      the same request a second time gives the same text and the model's parameters are untouched.
+
+The pinned facts are those of the tree with fixes/C07-*.diff applied; the snapshot's facts are
+kept in Coq as regression witnesses (C07_snapshot_*_refuted).  Cases inside a recorded finding's
+guard (known_findings.d/C07.json, `finding_for`) are counted, not reported.
 """
 
 from __future__ import annotations
@@ -21,6 +26,7 @@ from __future__ import annotations
 import ast
 import copy
 import json
+import re
 import shutil
 import signal
 from fractions import Fraction
@@ -184,14 +190,14 @@ _DS = {
     "jl": {"    {} = *variables": "DsSplat", "    {} = variables": "DsBare"},
 }
 _RET = {
-    "py": {"    return {}": "RetBare"},
+    "py": {"    return {}": "RetBare", "    return [{}]": "RetBracket"},
     "ts": {"    return [{}];": "RetBracket"},
     "rs": {"    return [{}]": "RetBracket"},
     "jl": {"    return {}": "RetBare"},
 }
 
 EXPECTED_FACTS = {
-    "py": ("AsgName", "DsList", "RetBare", "false"),
+    "py": ("AsgName", "DsList", "RetBracket", "false"),
     "ts": ("AsgName", "DsList", "RetBracket", "false"),
     "rs": ("AsgName", "DsList", "RetBracket", "true"),
     "jl": ("AsgLitK", "DsSplat", "RetBare", "true"),
@@ -430,18 +436,17 @@ def judge(desc: dict, lang: str, obs: dict, execs: list[tuple] | None, refs: lis
 
 
 def finding_for(desc: dict, lang: str, exec_class: str | None = None) -> str | None:
-    """The recorded finding whose guard contains this case (None: inside the partial theorem's guard)."""
+    """The recorded finding whose guard contains this case (None: inside the guard of the theorem
+    C07_equiv: a violation there is a VIOLATION)."""
     f = G.shape_flags(desc)
     if lang == "jl":
         return "jl-template"
+    if f["n_var"] == 0:
+        return "no-variables-unit-return"  # `()` wrapped by the return template: `[()]`
     if f["uncovered"]:
         return "variable-without-reaction"
     if f["has_ia"]:
         return "assigned-parameter-not-emitted"
-    if lang == "py" and f["n_ret"] == 1:
-        return "py-single-derivative-scalar"
-    if lang in ("ts", "rs") and f["n_var"] == 0:
-        return "variable-without-reaction"  # `[()]` : the same return-list construction
     if lang == "rs" and exec_class == "intlit":
         return "rs-integer-literal"
     return None
@@ -524,8 +529,24 @@ def coq_case(desc: dict, lang: str, obs: dict, sk: dict | None, points: list[tup
     cache = clist(cn(k) for k in obs["cache_after"]) if all(k >= 0 for k in obs["cache_after"]) else "[9999%N]"
     return (
         f"mkCase {G.COQ_LANG[lang]} {G.coq_model(desc)} {clist(map(cn, obs['order']))} {clist(map(cn, desc['free']))}\n"
-        f"    {gobs} {cache}\n    {clist(pts)}"
+        f"    {gobs} {cache} {second_obs(obs)}\n    {clist(pts)}"
     )
+
+
+def second_obs(obs: dict) -> str:
+    """The same request a second time, as the model's vocabulary: the same answer as the first
+    time (same text, or the same refusal) / KeyError / anything else (never matches the model)."""
+    sec, g = obs.get("second"), obs["gen"][0]
+    if sec is None:
+        return "SecOther"
+    if sec[0] == "same":
+        return "SecSame"
+    if sec[0] == "raised":
+        if sec[1] == "KeyError":
+            return "SecKey"
+        if (sec[1], g) in (("ValueError", "untrans"), ("TypeError", "untranscoef")):
+            return "SecSame"
+    return "SecOther"
 
 
 def corr_file(cases: list[str]) -> str:
@@ -540,7 +561,7 @@ def corr_file(cases: list[str]) -> str:
     )
 
 
-ASPECT = {1: "generated program (skeleton read back from the text)", 2: "cached parameter dict after the call", 3: "specification vs values of the real model", 4: "outcome of executing the text"}
+ASPECT = {1: "generated program (skeleton read back from the text)", 2: "cached parameter dict after the call", 3: "specification vs values of the real model", 4: "outcome of executing the text", 5: "the same request a second time"}
 
 # ---------------------------------------------------------------------------------------
 # the check
@@ -566,6 +587,17 @@ def _corpus() -> list[dict]:
     # conditionals
     out.append({"par": [(11, F(2), None)], "var": [(12, F(1)), (13, F(1))], "der": [(14, 11, [12, 11]), (15, 15, [13, 11, 14])],
                 "rxn": [(16, 12, [15], [(12, ("stat", F(-1))), (13, ("stat", F(1)))]), (17, 13, [12, 13], [(13, ("stat", F(2)))])], "free": []})
+    # one variable (the Python templates bound the whole vector / returned a bare number)
+    out.append({"par": [(11, F(2), None)], "var": [(12, F(1))], "der": [],
+                "rxn": [(13, 4, [11, 12], [(12, ("stat", F(-1)))])], "free": []})
+    # declared in dependency order, one free parameter (the cached parameter dict was popped)
+    out.append({"par": [(11, F(2), None)], "var": [(12, F(1)), (13, F(2))], "der": [(14, 2, [12, 11])],
+                "rxn": [(15, 4, [14, 13], [(12, ("stat", F(-1))), (13, ("stat", F(1)))])], "free": [11]})
+    # an untranslatable function in a computed coefficient (TypeError) and in a reaction (ValueError)
+    out.append({"par": [(11, F(2), None)], "var": [(12, F(1)), (13, F(2))], "der": [],
+                "rxn": [(14, 4, [11, 12], [(12, ("stat", F(-1))), (13, ("dyn", 16, [11]))])], "free": []})
+    out.append({"par": [(11, F(2), None)], "var": [(12, F(1)), (13, F(2))], "der": [],
+                "rxn": [(14, 17, [11, 12], [(12, ("stat", F(-1))), (13, ("stat", F(1)))])], "free": [11]})
     return out
 
 
@@ -615,13 +647,14 @@ def check(run: Run) -> None:
     )
     proofs_ok = run.check_proofs(AREA, PROPS)
     run.assumptions += [
-        "Coq 8.16.1 kernel + vm_compute; theorems closed under the global context (see trusted_base)",
-        "hypothesis of C07_equiv_partial: per-function translation soundness (property C06) -- the inlined target expression of a translated function means what the Python function means; SymPy's printers and simplifier are covered by that hypothesis, not verified",
-        "hypothesis: the order read from the model's cache is a valid evaluation order (what C02 proves of the sorter)",
-        "fact extractor harness/c07.py::extract_facts (fail-closed ast matcher); skeleton reader harness/c07_exec.py",
-        "executors: CPython exec, node (type annotations stripped by a regex), rustc (thorough tier), a Julia-SUBSET interpreter written for this check (Julia is not installed)",
+        "Coq 8.16.1 kernel + vm_compute; all 13 statements of PropsC07.v closed under the global context (see trusted_base)",
+        "hypothesis C06 of C07_equiv_partial: per-function translation soundness (property C06) -- the inlined target expression of a translated function has the value of the Python function; fn_to_sympy, SymPy's simplifier and its py/js/rust/julia printers are covered by that hypothesis, not verified (validated on every case by executing the emitted text)",
+        "hypothesis ValidOrder: the order read from the model's cache lists every derived quantity/reaction after what it reads (what C02 proves of the sorter); Resolved is the specification of 'what the model returns' (C01), compared with Model.__call__ on every case (aspect 3 of the correspondence)",
+        "guards of C07_equiv_partial = complement of the recorded findings: L <> Julia, at least one variable, every variable acted on by a reaction, no assignment-defined parameter; unique parameter names (dict keys)",
+        "fact extractor harness/c07.py::extract_facts (fail-closed ast matcher, whole-function normalised comparison); skeleton reader harness/c07_exec.py",
+        "executors: CPython exec, node (type annotations stripped by a regex), rustc (thorough tier; one witness per quick run), a Julia-SUBSET interpreter written for this check (Julia is not installed)",
         "floating point: all generated values are small dyadic rationals and the functions polynomial/piecewise linear, so binary64 evaluation is exact; rounding is outside the model",
-        "custom_fns overrides and surrogates are not modelled (the generator only warns about surrogates)",
+        "custom_fns overrides and surrogates are not modelled (the generator only warns about surrogates); Rust integer literals are outside the one-numeric-type model (recorded finding, oracle only)",
     ]
     if facts != {k: (list(v) if isinstance(v, tuple) else v) for k, v in EXPECTED_FACTS.items()}:
         run.note(f"extracted facts differ from the pinned ones: {facts}")
@@ -662,6 +695,7 @@ def _check_body(run: Run, rng, descs: list[dict], langs, work, proofs_ok: bool) 
     find_hits: dict[str, int] = {}
     coq_cases: list[str] = []
     n_viol = 0
+    seen_kinds: set[str] = set()
     indep_disagree = 0
     for i, c in enumerate(cases):
         desc, lang, obs = c["desc"], c["lang"], c["obs"]
@@ -691,7 +725,9 @@ def _check_body(run: Run, rng, descs: list[dict], langs, work, proofs_ok: bool) 
             fid = finding_for(desc, lang, ex_class)
             if fid is not None:
                 find_hits[fid] = find_hits.get(fid, 0) + 1
-            elif n_viol < 4:
+            elif (kind := re.sub(r"\d+", "", re.sub(r"\b(py|ts|rs|jl)\b", "L", bad))[:48]) not in seen_kinds and n_viol < 6:
+                # one concrete failing input per kind of failure (not one per language)
+                seen_kinds.add(kind)
                 n_viol += 1
                 run.violation(
                     f"generate_model_code_{lang}: {bad} -- model: {describe(desc)}",
